@@ -218,8 +218,17 @@ async fn episode(p: &EpParams, mt: bool) -> EpReport {
         }
         tasks.push((kind, start_vt, h));
     }
+    // one burst in five arrives in the very instant in which the leases taken before it run out (the
+    // subscription actor finds a full mailbox and its expiry timer ready together)
+    let mut jumped = false;
+    if rng.chance(1, 5) && !lease_ids.is_empty() {
+        tokio::time::advance(Duration::from_millis(10_000 + rng.below(200))).await;
+        rep.inc("bursts_at_the_expiry_instant");
+        // (the stream's own deliveries have expired as well: its acks below come too late to count)
+        jumped = true;
+    }
     // Stream control message inside the burst window.
-    if let Some(h) = &stream {
+    if let Some(h) = stream.as_ref().filter(|_| !jumped) {
         let ds = h.deliveries();
         if !ds.is_empty() {
             let ids: Vec<String> = ds.iter().map(|d| d.ack_id.clone()).collect();
